@@ -140,6 +140,7 @@ type TermStore struct {
 	True   *Term
 	False  *Term
 	vars   []*Term // declared variables, in creation order
+	ctree  map[int]int
 	ufs    map[string]ufSig
 }
 
@@ -345,6 +346,18 @@ func (s *TermStore) App(op Op, w int, args ...*Term) *Term {
 		}
 		if v, ok := evalOp(op, w, 0, 0, av, aw); ok {
 			return s.Const(w, v)
+		}
+	}
+	// op(ite-tree with constant leaves, const) -> ite-tree with constant leaves: keeps arithmetic on small
+	// case-valued terms (bits.Len64, varint size classes) out of the solver (no 64-bit dividers to bit-blast)
+	if len(args) == 2 && distributable[op] {
+		if args[1].op == OpConst && s.ctreeLeaves(args[0]) > 0 {
+			c := args[1]
+			return s.mapCTree(args[0], func(l *Term) *Term { return s.App(op, w, l, c) }, w)
+		}
+		if args[0].op == OpConst && s.ctreeLeaves(args[1]) > 0 {
+			c := args[0]
+			return s.mapCTree(args[1], func(l *Term) *Term { return s.App(op, w, c, l) }, w)
 		}
 	}
 	switch op {
@@ -572,6 +585,52 @@ func (s *TermStore) App(op Op, w int, args ...*Term) *Term {
 	return s.mk(&Term{op: op, w: w, args: append([]*Term(nil), args...)})
 }
 
+var distributable = map[Op]bool{OpAdd: true, OpSub: true, OpMul: true, OpUDiv: true, OpSDiv: true, OpURem: true, OpSRem: true,
+	OpAnd: true, OpOr: true, OpXor: true, OpShl: true, OpLShr: true, OpAShr: true,
+	OpEq: true, OpULt: true, OpULe: true, OpSLt: true, OpSLe: true}
+
+// ctreeLeaves returns the number of leaves of t if t is an ite tree (at least one ite) all of whose leaves are
+// constants and which has at most 130 leaves; 0 otherwise.
+func (s *TermStore) ctreeLeaves(t *Term) int {
+	if t.op != OpIte || t.w == 0 {
+		return 0
+	}
+	if s.ctree == nil {
+		s.ctree = map[int]int{}
+	}
+	if n, ok := s.ctree[t.id]; ok {
+		return n
+	}
+	n := 0
+	for _, a := range t.args[1:] {
+		switch {
+		case a.op == OpConst:
+			n++
+		default:
+			k := s.ctreeLeaves(a)
+			if k == 0 {
+				s.ctree[t.id] = 0
+				return 0
+			}
+			n += k
+		}
+	}
+	if n > 130 {
+		n = 0
+	}
+	s.ctree[t.id] = n
+	return n
+}
+
+func (s *TermStore) mapCTree(t *Term, f func(*Term) *Term, w int) *Term {
+	if t.op == OpConst {
+		return f(t)
+	}
+	a := s.mapCTree(t.args[1], f, w)
+	b := s.mapCTree(t.args[2], f, w)
+	return s.App(OpIte, w, t.args[0], a, b)
+}
+
 func isZero(t *Term) bool { return t.op == OpConst && t.val == 0 }
 func isOne(t *Term) bool  { return t.op == OpConst && t.val == 1 }
 
@@ -589,6 +648,9 @@ func (s *TermStore) Extract(a *Term, hi, lo int) *Term {
 	if a.op == OpConst {
 		return s.Const(w, a.val>>uint(lo))
 	}
+	if s.ctreeLeaves(a) > 0 {
+		return s.mapCTree(a, func(l *Term) *Term { return s.Extract(l, hi, lo) }, w)
+	}
 	if (a.op == OpZExt || a.op == OpSExt) && hi < a.args[0].w {
 		return s.Extract(a.args[0], hi, lo)
 	}
@@ -605,6 +667,9 @@ func (s *TermStore) ZExt(a *Term, w int) *Term {
 	if a.op == OpZExt {
 		return s.ZExt(a.args[0], w)
 	}
+	if s.ctreeLeaves(a) > 0 {
+		return s.mapCTree(a, func(l *Term) *Term { return s.ZExt(l, w) }, w)
+	}
 	return s.mk(&Term{op: OpZExt, w: w, args: []*Term{a}})
 }
 
@@ -614,6 +679,9 @@ func (s *TermStore) SExt(a *Term, w int) *Term {
 	}
 	if a.op == OpConst {
 		return s.Const(w, signExt(a.val, a.w))
+	}
+	if s.ctreeLeaves(a) > 0 {
+		return s.mapCTree(a, func(l *Term) *Term { return s.SExt(l, w) }, w)
 	}
 	return s.mk(&Term{op: OpSExt, w: w, args: []*Term{a}})
 }
